@@ -223,6 +223,9 @@ def pset (k : String) (v : Py) : List (String × Py) → List (String × Py)
   | [] => [(k, v)]
   | (k', v') :: rest => if k' == k then (k, v) :: rest else (k', v') :: pset k v rest
 
+/-- `umx.core.reserved`: element and attribute names that are Python keywords get another key. -/
+def pyKey (n : String) : String := if n == "class" then "cls" else if n == "def" then "dfn" else n
+
 /-- One round of `Core.append_children`: file the decoded child `v` under `k`. -/
 def accStep (acc : List (String × Py)) (k : String) (multi : Bool) (v : Py) : List (String × Py) :=
   match plookup k acc with
@@ -311,13 +314,13 @@ def decode (env : Env) : Nat → TRef → Bool → Info → Py
         if (match a.ns with | some u => skipAttrNs u | none => false) then none else
           let ty := ((attrsOf env fl k).find? (·.name == a.name)).map (·.type)
           let txt := match a.value with | .lit s => s | .qname _ n => n
-          some ("_" ++ a.name, .text txt (ty.getD ""))
+          some ("_" ++ pyKey a.name, .text txt (ty.getD ""))
       let cdata := kids.foldl (fun (acc : List (String × Py)) kid =>
         match kid with
         | .mk _ kn _ _ _ =>
           match (members env fl k).find? (·.1.name == kn) with
-          | none => acc ++ [(kn, .err "TypeNotFound")]
-          | some md => accStep acc kn md.1.unbounded (decode env f md.1.type md.1.nillable kid)) adata
+          | none => acc ++ [(pyKey kn, .err "TypeNotFound")]
+          | some md => accStep acc (pyKey kn) md.1.unbounded (decode env f md.1.type md.1.nillable kid)) adata
       postprocess k.2 cdata (isNil attrs) (!kids.isEmpty) text nillable ""
 
 /-- `Binding.replycomposite`: file the decoded part `v` under `tag`. A slot holding None counts
